@@ -218,6 +218,11 @@ func (l *sparseFileLoader) indexRange(start, length int64) (int, int) {
 
 // Loads all the chunks needed to populate the given byte range (if not already loaded)
 func (l *sparseFileLoader) loadRange(start, length int64) error {
+	// Nothing to load for an empty range or an index without chunks (indexRange
+	// has no valid answer for those)
+	if length < 1 || len(l.chunks) == 0 {
+		return nil
+	}
 	first, last := l.indexRange(start, length)
 	var chunksNeeded []int
 	l.mu.RLock()
